@@ -12,6 +12,16 @@ BASE_NOTE = (
 
 # property -> (category, text, technique, design_ref, extra note)
 CLAIMS = {
+    "C11": (
+        "proof",
+        "Contracts on the real compile_liquid_rules, get_lexer, Environment.tokenizer and LiquidTag.__init__, executed symbolically by pyvc over six arbitrary delimiter strings with re.escape uninterpreted: every pattern handed to re.compile contains a delimiter only under re.escape, "
+        "no literal pattern fragment spells a default delimiter, every configured delimiter reaches the rules, each rule is opened/closed by its own kind of delimiter, and the chain Environment -> get_lexer -> compile_liquid_rules passes each delimiter to the parameter of the same name. "
+        "Memo tables (get_lexer, get_parser, get_implicit_environment): key-completeness and identity-key obligations; environment isolation: frame obligations over registration, tag constructors and Parser (pyvc-flow). "
+        "That the compiled regular expressions delimit markup as intended is not modelled: bounded delimiter-rewrite and interleaving check (16 delimiter sets x <=591 templates, 9 configurations interleaved).",
+        "deductive contracts over pattern terms (pyvc symbolic execution, z3) + frame/memo-key obligations (pyvc-flow) + bounded rewrite-equivalence check",
+        "DESIGN.md section 4 C11",
+        "re.escape(s) matches exactly s (DESIGN 3); functools.lru_cache keys on all arguments.",
+    ),
     "C05": (
         "other",
         "Provenance (taint) obligations over the real source, enumerated on every run: every construction of Markup in liquid/** (21 sites) has an argument of an admitted provenance (template literal, buffer of already-escaped writes, escaped earlier in the same function, derived from a value tested to be Markup, percent-/js-encoded, immediately unescaped, or exempt by the statement); "
